@@ -106,6 +106,8 @@ def add_faults(rng, spec):
 
 class C03:
     prop = "C03"
+    state_measure = ("of the simulated multi-process run(s): per queue (pipe length, outstanding count) x per live task (task kind, kind of "
+                     "thing it is blocked on), sampled at every scheduler decision; hashed; distinct values counted")
     level = "exploration"
     design_ref = "DESIGN.md 3.3"
     tiers = {"quick": {"runs": 4000, "budget_s": 80, "chunk": 10, "twice_every": 8, "shrink_s": 60},
